@@ -12,7 +12,7 @@ META = {
 
 def run(ctx):
     return mworld.run_family(
-        ctx, "C13", scenarios=[3, 7], impls=['basicmutable', 'overlay-basic', 'overlay-mutable', 'overlay-empty', 'overlay-compact'],
+        ctx, "C13", scenarios=[3, 7, 10], impls=['basicmutable', 'overlay-basic', 'overlay-mutable', 'overlay-empty', 'overlay-compact'],
         sections=['unchanged'],
         select=lambda e: e['ev']['op'] in ('add', 'merged') and not e['ev']['ok'],
         meta_rule='every rejected AddFeature / failing MergedChange transition of the TLC graph executed via its shortest prefix on 4 world constructions + random walks',
